@@ -1,6 +1,6 @@
 (* C09 -- Code is verbatim (partial: see MANIFEST level text).  Property theorems only. *)
 From Rimu Require Import Base Regex RegexParse Str Types Tables Guards State Inline Block
-  Frame FrameBlock FrameInst OptionsLemmas MiscLemmas MoreLemmas Plain MatchExact Emphasis PlainDoc Lines CodeBlock.
+  Frame FrameBlock FrameInst OptionsLemmas MiscLemmas MoreLemmas Plain MatchExact Emphasis PlainDoc Lines CodeBlock RegexAnalysis IndentDoc.
 
 (* the code and indented definitions of the generated table expand specials only
    (macros, spans, container, skip all off) and wrap in <pre><code> *)
@@ -75,4 +75,23 @@ Example C09_ex_fenced :
   | Ok (html, _) => html = $"<pre><code>*not em* &lt;b&gt; {macro} .attr" ++ [10] ++ $"- not a list</code></pre>"
   | _ => False
   end.
+Proof. vm_compute. reflexivity. Qed.
+
+(* AN INDENTED PARAGRAPH IS VERBATIM, end to end: the one-line document  <blanks><text>  (one or more spaces, then text over the
+   safe alphabet starting with a non-space) renders to <pre><code>escaped text</code></pre>: the indentation is removed, nothing in
+   the text is interpreted, the session is unchanged.  None of the 12 line rules, 3 list rules and 6 earlier block rules matches a
+   line that starts with a blank (first-character analysis of the generated patterns), the opening pattern has one derivation,
+   and the indentation filter is evaluated symbolically on the line *)
+Theorem C09_indented_verbatim : forall n sp body s, quiet_default s -> spaces sp -> ind_body_ok body ->
+  doc_render (S (S (S n))) (ind_line sp body) s = Ok ($"<pre><code>" ++ escape body ++ $"</code></pre>", s).
+Proof. exact indented_document. Qed.
+Print Assumptions C09_indented_verbatim.
+
+Theorem C09_indentation_removed : forall sp body, spaces sp -> ind_body_ok body -> indentedContentFilter (ind_line sp body) = Ok body.
+Proof. exact indented_filter. Qed.
+Print Assumptions C09_indentation_removed.
+
+Example C09_ex_indented :
+  match doc_render 8 ($"   hello *w* > x") (document_init S0) with
+  | Ok (html, _) => str_eqb html $"<pre><code>hello *w* &gt; x</code></pre>" | _ => false end = true.
 Proof. vm_compute. reflexivity. Qed.
